@@ -256,7 +256,7 @@ class Mesh(Observable):
 
         if len(list_mesh) == 1:
             if return_mapping:
-                return list_mesh[0], [np.arange(list_mesh[0].groupElem.Ncoords)]
+                return list_mesh[0], [np.arange(list_mesh[0].Nn)]
             return list_mesh[0]
 
         # Step 1: collect coords once per mesh (mesh.coord reconstructs each call)
